@@ -187,6 +187,30 @@ func init() {
 		}
 		x.assumeGlobal(st, c.Implies(c.And(oneChar, is16, c.Eq(err.T, c.Int(0))), inR))
 		x.assumed["strconv.ParseInt(s,16,0) with len(s)==1 and nil error returns 0..15 (library contract)"] = true
+		// value and well-formedness of the text are deterministic functions of (text, base); the
+		// call succeeds iff the text is well formed and its value fits the requested bit size
+		i64 := types.Typ[types.Int64]
+		val := x.uninterp("uf_parseint_val_"+x.mode, x.scalarSort(i64), s.T, base.T)
+		ok := x.uninterp("uf_parseint_ok_"+x.mode, SBool, s.T, base.T)
+		if bits, isConst := x.constVal(e.Args[2]); isConst && bits.T.IsLit() {
+			n := bits.T.SignedVal().Int64()
+			if n == 0 {
+				n = 64
+			}
+			if n >= 1 && n <= 64 {
+				lim := new(big.Int).Lsh(big.NewInt(1), uint(n-1))
+				loB, hiB := x.intLit(i64, new(big.Int).Neg(lim)), x.intLit(i64, new(big.Int).Sub(lim, big.NewInt(1)))
+				var fits *Term
+				if x.mode == "bv" {
+					fits = c.And(c.bvcmp("bvsle", loB, val), c.bvcmp("bvsle", val, hiB))
+				} else {
+					fits = c.And(c.Le(loB, val), c.Le(val, hiB))
+				}
+				x.assume(st, c.Eq(c.Eq(err.T, c.Int(0)), c.And(ok, fits)))
+				x.assume(st, c.Implies(c.Eq(err.T, c.Int(0)), c.Eq(r.T, val)))
+				x.assumed["strconv.ParseInt: succeeds iff the text is a well-formed number in the base whose value fits the bit size, and then returns that value (library contract; text -> value is an uninterpreted function)"] = true
+			}
+		}
 		return []Val{r, err}
 	}
 	libModels["strconv.Itoa"] = func(x *Exec, st *State, e *ast.CallExpr, recv *Val) []Val {
